@@ -845,13 +845,16 @@ impl StringValidator {
     }
 
     pub fn is_valid<S: AsRef<str>>(&self, s: S) -> bool {
+        // JSON Schema counts minLength / maxLength in Unicode scalar values
+        // (as the generated `chars().count()` checks do), not in bytes.
+        let len = s.as_ref().chars().count() as u64;
         self.max_length
             .as_ref()
-            .map_or(true, |max| s.as_ref().len() as u32 <= *max)
+            .map_or(true, |max| len <= u64::from(*max))
             && self
                 .min_length
                 .as_ref()
-                .map_or(true, |min| s.as_ref().len() as u32 >= *min)
+                .map_or(true, |min| len >= u64::from(*min))
             && self
                 .pattern
                 .as_ref()
